@@ -15,7 +15,7 @@ from .zdir import ZDir
 PAGES = ["a_b", "axb", "ab", "a_bc", "prj", "prj2", "notes", "p", "q_r", "qxr", "in_box"]
 DIRS = ["", "", "sub", "d2"]
 TAGS = ["foo", "bar", "work", "Work", "work2", "home_2", "a1", "ox", "o", "zz9"]
-KEYS = ["due", "kA", "kB", "p", "status", "foo"]
+KEYS = ["due", "kA", "kB", "p", "status", "foo", "Who", "Week", "S1"]  # (incl. keys starting with the clause letters W / S)
 INT_VALUES = ["0", "5x", "10", "42", "100", "007", "12abc", "25"]
 DATE_VALUES = ["2024-01-01", "2031-03-14", "2031-03-13", "2031-03-15", "2024-1-1", "20240101", "2025-12-31"]
 STR_VALUES = ["Done", "done", "foo", "v1", "M_Th", "a1", "fo", "1_0", "4_2"]
@@ -114,6 +114,14 @@ def gen_corpus(rng: random.Random, today: dt.date) -> tuple[ZDir, dict]:
                     it.words.append(W(f"[{zz2}]", links=("zid:" + zz2,), form="zidlink"))
         if rng.random() < 0.2:
             it.cont.append(pg.Cont("  ", "* ", [W(rng.choice(BODY_WORDS)) for _ in range(rng.randint(1, 3))]))
+        if rng.random() < 0.15:
+            # bullet properties, one of them WITHOUT a value ('  * owner::' is legal and indexed with the value '')
+            free = [k for k in KEYS + ["owner", "ticket"] if k not in used]
+            if len(free) >= 2:
+                k1, k2 = rng.sample(free, 2)
+                it.cont.append(pg.Cont("  ", "* ", [], prop_key=k1))
+                if rng.random() < 0.7:
+                    it.cont.append(pg.Cont("  ", "* ", [W(rng.choice(STR_VALUES))], prop_key=k2))
         return it
 
     cnt = 0
